@@ -59,6 +59,9 @@ def gen_cases(tier, seed):
                 "reject_exc": rng.choice(["PermissionError", "FileNotFoundError"]),
                 "reject_create": (not weak) and rng.random() < 0.03,
                 "cancel": None if rng.random() < 0.9 else [rng.choice(["S", "D"]), rng.randrange(1, 12)]}
+        cfg["scribble_pdus"] = rng.random() < 0.2  # ... and one which edits every PDU object after it has taken its bytes
+        if rng.random() < 0.15:
+            case["drift"] = [rng.randrange(1 << 30), rng.choice([300, 1500])]  # slow entities: time passes before every call
         cfg["scribble_user"] = rng.random() < 0.2  # a user which overwrites the attributes of the parameter objects its callbacks receive
         if rng.random() < 0.25:
             # the receiver's own default checksum type for this sender differs from the one the Metadata PDU announces (which decides)
@@ -155,7 +158,8 @@ def run_case(case):
             actions[case["cancel"][1]] = [("cancel", case["cancel"][0])]
         if case.get("busy_put") is not None:
             actions.setdefault(case["busy_put"], []).insert(0, ("put_third",))
-        r = Runner(w, plan=plan, max_expiries=40, max_rounds=3000, actions=actions, pacing=case.get("pacing"))
+        r = Runner(w, plan=plan, max_expiries=40, max_rounds=3000, actions=actions, pacing=case.get("pacing"),
+                   drift_ms=tuple(case["drift"]) if case.get("drift") else None)
         internal = None
         applied = []
         try:
